@@ -645,6 +645,7 @@ func checkC16(w *World) {
 	w.check(P, "R16.3", "numbers are decoded to float64", pull.Pos(), !useNumber, fmt.Sprintf("Decoder.UseNumber is called: %v (then 1.0, 1e2, 1.50 keep their source spelling instead of the shortest numeral that reads back to the same double)", useNumber))
 	w.floor(P, "R16.3", 5)
 	w.checkJsonScheduling(P, pull)
+	w.freshStackStates(P, pull)
 	// the store keeps every event of the stream: an empty string is still a text node
 	w.include(P, "C10", "R10.8")
 	w.include(P, "C17", "R17.5") // the adapters of package parser share no growing package-level state
@@ -944,6 +945,39 @@ func checkC17(w *World) {
 		// skip conditions
 		skipEq, skipPrefix := false, false
 		other := 0
+		// the xmlns tests look at the attribute's full key: made on the name the stripping helper returned they also
+		// drop a:xmlns (local part "xmlns") and a:xmlns:b, which are ordinary attributes of the parse tree
+		var stripped []string
+		var viaStrip func(v ssa.Value, in *ssa.Function, depth int) bool
+		viaStrip = func(v ssa.Value, in *ssa.Function, depth int) bool {
+			if depth > 3 {
+				return false
+			}
+			found := false
+			backSlice(v, func(x ssa.Value) bool {
+				switch y := x.(type) {
+				case *ssa.Call:
+					if staticCallee(y) == strip {
+						found = true
+					}
+					return false
+				case *ssa.Parameter:
+					// a predicate helper: what its callers pass
+					for i, p := range in.Params {
+						if p != y {
+							continue
+						}
+						for _, site := range w.callersOf(in) {
+							if i < len(site.Call.Args) && viaStrip(site.Call.Args[i], site.Parent(), depth+1) {
+								found = true
+							}
+						}
+					}
+				}
+				return !found
+			})
+			return found
+		}
 		// every string test on the attribute name, in the builder and in the predicates it calls (not the stripping helper)
 		var scan []*ssa.Function
 		for g := range staticReach(attrBuilder, func(x *ssa.Function) bool { return fnPkgKey(x) == "parser" && x != strip }) {
@@ -965,6 +999,13 @@ func checkC17(w *World) {
 					if ok {
 						if s == "xmlns" {
 							skipEq = true
+							opnd := c.X
+							if _, isK := c.X.(*ssa.Const); isK {
+								opnd = c.Y
+							}
+							if viaStrip(opnd, g, 0) {
+								stripped = append(stripped, w.pos(c.Pos())+" in "+g.Name())
+							}
 						} else {
 							other++
 						}
@@ -973,11 +1014,17 @@ func checkC17(w *World) {
 					if staticCallee(c) != nil && funcFullName(staticCallee(c)) == "strings.HasPrefix" {
 						if s, ok := constString(c.Call.Args[1]); ok && s == "xmlns:" {
 							skipPrefix = true
+							if viaStrip(c.Call.Args[0], g, 0) {
+								stripped = append(stripped, w.pos(c.Pos())+" in "+g.Name())
+							}
 						} else if bo, ok := c.Call.Args[1].(*ssa.BinOp); ok && bo.Op == token.ADD {
 							a, _ := constString(bo.X)
 							b, _ := constString(bo.Y)
 							if a+b == "xmlns:" {
 								skipPrefix = true
+								if viaStrip(c.Call.Args[0], g, 0) {
+									stripped = append(stripped, w.pos(c.Pos())+" in "+g.Name())
+								}
 							}
 						} else {
 							other++
@@ -986,6 +1033,8 @@ func checkC17(w *World) {
 				}
 			})
 		}
+		sort.Strings(stripped)
+		w.check(P, "R17.2", "the xmlns tests are made on the attribute's full key", attrBuilder.Pos(), len(stripped) == 0, fmt.Sprintf("xmlns tests applied to the name after prefix stripping: %s", orElse(strings.Join(stripped, "; "), "none")))
 		w.check(P, "R17.2", "xmlns attributes are skipped and nothing else", attrBuilder.Pos(), skipEq && skipPrefix && other == 0, fmt.Sprintf("skips name == \"xmlns\": %v; names with prefix \"xmlns:\": %v; other name-based conditions: %d", skipEq, skipPrefix, other))
 		// universal form: whether an attribute is kept depends on nothing but its own name. Every branch of the
 		// builder is the loop bound, a test of a string against a constant, or the result of a string predicate;
@@ -1006,7 +1055,7 @@ func checkC17(w *World) {
 		sort.Strings(foreign)
 		w.check(P, "R17.2", "an attribute is kept or skipped by its own name only", attrBuilder.Pos(), len(foreign) == 0, fmt.Sprintf("branches of the attribute builder that test something other than the loop bound or the attribute's name: %s", orElse(strings.Join(foreign, "; "), "none")))
 	}
-	w.floor(P, "R17.2", 4)
+	w.floor(P, "R17.2", 5)
 
 	// R17.3
 	synth := false
@@ -1395,7 +1444,7 @@ func (w *World) htmlReadsCallersBytes(P string) {
 		w.undecided(P, "R17.6", "parser.ReadHtml", 0, "not found")
 		return
 	}
-	direct, n := true, 0
+	direct, opts, n := true, true, 0
 	for g := range staticReach(rh, func(x *ssa.Function) bool { return fnPkgKey(x) == "parser" }) {
 		allInstrs(g, func(in ssa.Instruction) {
 			c, ok := in.(*ssa.Call)
@@ -1408,11 +1457,48 @@ func (w *World) htmlReadsCallersBytes(P string) {
 				if g != rh || c.Call.Args[0] != ssa.Value(rh.Params[0]) {
 					direct = false
 				}
+				if len(c.Call.Args) > 1 && !defaultParseOptions(c.Call.Args[1]) {
+					opts = false
+				}
 			}
 		})
 	}
 	w.check(P, "R17.6", "html.Parse reads the caller's bytes", rh.Pos(), n > 0 && direct, fmt.Sprintf("calls of html.Parse: %d; each is given ReadHtml's own reader parameter: %v", n, direct))
-	w.floor(P, "R17.6", 1)
+	w.check(P, "R17.6", "the HTML5 algorithm runs with its default options", rh.Pos(), n > 0 && opts, fmt.Sprintf("html.Parse, or html.ParseWithOptions without options (scripting enabled, no fragment context): %v (with scripting disabled the content of <noscript> is parsed as markup instead of one text node)", opts))
+	w.floor(P, "R17.6", 2)
+}
+
+// defaultParseOptions: the variadic option list is empty, or holds only ParseOptionEnableScripting(true).
+func defaultParseOptions(v ssa.Value) bool {
+	if k, ok := v.(*ssa.Const); ok && k.Value == nil {
+		return true
+	}
+	sl, ok := v.(*ssa.Slice)
+	if !ok {
+		return false
+	}
+	al, ok := sl.X.(*ssa.Alloc)
+	if !ok {
+		return false
+	}
+	good := true
+	for _, r := range referrers(al) {
+		ia, ok := r.(*ssa.IndexAddr)
+		if !ok {
+			continue
+		}
+		for _, st := range storesInto(ia) {
+			c, ok := st.Val.(*ssa.Call)
+			if !ok || staticCallee(c) == nil || funcFullName(staticCallee(c)) != "golang.org/x/net/html.ParseOptionEnableScripting" {
+				good = false
+				continue
+			}
+			if k, ok := c.Call.Args[0].(*ssa.Const); !ok || k.Value == nil || k.Value.String() != "true" {
+				good = false
+			}
+		}
+	}
+	return good
 }
 
 func fieldName(fa *ssa.FieldAddr) string {
